@@ -43,7 +43,17 @@ for every answer, with or without events: `message_size_accounts` (length = head
 structural ends + trailer), `progress_with_events` (every message but the last carries a report when
 the attribute array start is not longer than the event array start — the real encoding —, all but
 at most one otherwise), `chunk_count_bounded_events`.
-The defect of the unrepaired code: `exact_fit_fails_before_fix`.
+`messages_wellformed`: every message of every answer is one well-formed top-level struct (token view
+`msgToks` of `Model/Chunk.lean`).
+The model above identifies a report with (kind, id, list index, encoded size) and writes it atomically.
+Cursor level (`Model/ChunkCursor.lean`: write-buffer bytes, partial writes, rewind positions, the list
+index of `send_array_items`, loops with fuel — attribute section only): `cursor_attrs_refine`
+(`cputAttrs_sim`: it refines the size-level model, whole run, every partial-write function),
+`cursor_never_loops` (its fuel is never exhausted; `oversize_item_loops_before_fix`: the unrepaired loop
+exhausts every fuel), `cursor_attr_section`, `cursor_messages`, `cursor_report_starts`,
+`streamed_indices` (list indices `0, 1, …` each once, in order), and the model-level counterpart of the
+seeded change C14-a: `stale_rewind_breaks_reassembly`.
+The defects of the unrepaired code: `exact_fit_fails_before_fix`, `oversize_item_loops_before_fix`.
 -/
 namespace C14
 open Chunk
